@@ -27,6 +27,7 @@ func RunHistoryOpt(f *Family, hist []Ev, flags []string, wantTrace, allSteps boo
 	r := NewRunner(cfg, f.NConn)
 	r.TagC03 = f.TagC03
 	r.FamTags = f.Tags
+	r.RelayTags = f.RelayTags
 	defer func() {
 		if p := recover(); p != nil {
 			func() {
